@@ -67,10 +67,10 @@ PROPS = {
     "C01": P(workloads="mq-conc steady, view, quiesce, teardown-orders, handle-churn, last-sender, add-stream-sole (plain and futures handles, every receive entry point); Miri slice"),
     "C02": P(workloads="mq-conc steady, view, quiesce, last-sender, add-stream-sole, handle-churn with multi-producer stalls (claimed-unpublished slots); Miri slice"),
     "C03": P(workloads="mq-conc steady, view, remove-stream, wrap-slow-clone, add-stream-sole, no-receiver (every receiver leaving at once while producers keep sending) with slow consumers and stalls in the writer's scan; quiescent fill counts; Miri slice"),
-    "C04": P(workloads="mq-conc wrap-slow-clone, view, steady and handle-churn (clones used by a helper thread and dropped while the original keeps receiving) with stalls inside clone / view closure; AddressSanitizer shards; Miri with the data-race detector (broadcast, mpmc single consumer)"),
+    "C04": P(workloads="mq-conc wrap-slow-clone, view, steady and handle-churn (clones used by a helper thread and dropped while the original keeps receiving) with stalls inside clone / view closure; AddressSanitizer shards; Miri with the data-race detector (broadcast, mpmc single consumer); mq-tight shared-stream and plain-payload (payload type without drop glue, slow hand-written Clone)"),
     "C05": P(q=100, workloads="mq-seq with every teardown permutation, mq-conc teardown-orders / no-receiver / steady, AddressSanitizer shards, Miri with leak checking; one shard exercises the open finding (two streams on a move-out queue)"),
     "C06": P(workloads="quiescent probe after every mq-conc family; dedicated quiesce family; mq-tight handle-count (handle counts after concurrent clone/drop storms, read back through Full/Empty/Disconnected at quiescence)"),
-    "C07": P(workloads="mq-conc last-sender (drops racing receives on shared and separate streams, blocking and non-blocking entry points); mq-wake end phase (consumers blocked when all senders are dropped at the same instant)"),
+    "C07": P(workloads="mq-conc last-sender (drops racing receives on shared and separate streams, blocking and non-blocking entry points); mq-wake end phase (consumers blocked when all senders are dropped at the same instant); mq-fut (stream tasks parked when the last sender is dropped, including crowds of 9-12 parked tasks)"),
     "C08": P(q=50, workloads="mq-wake: consumers blocked in recv / recv_view / blocking iterators under Busy / Yielding / Blocking strategies with default and zero spins; Miri slice (deadlock detector)"),
     "C09": P(q=200, t=2000, assumptions=SEQ_ASSUME, workloads="mq-seq random sequences of 300 calls over all eight handle families + exhaustive enumeration of a 14-command alphabet; Miri slice for UB on sequential paths"),
     "C10": P(workloads="mq-conc add-stream-sole and add-stream-shared (one or two adders, rendezvous stalls between snapshot / publication and the writers' scan), mq-fut scenarios in which a polled receiver adds a stream and drops the parent"),
@@ -121,7 +121,8 @@ def jobs_for(prop, tier, seed):
         # long free-running executions with several consumers hammering one shared stream: windows of a
         # few instructions (no hook site inside) are only reachable through contention / pre-emption
         J += conc(prop, seed, ["wrap-slow-clone", "steady"], 1, s, label="long", base=80, extra=[["--long", "--fl", "broadcast"]])
-        J += shard_jobs(prop, seed, ["tight"], 3, s, "tight", base=90)
+        J += shard_jobs(prop, seed, ["tight"], 2, s, "tight", base=90)
+        J += shard_jobs(prop, seed, ["tight", "--mode", "plain-payload"], 1, s, "plain", base=94)
         J += conc(prop, seed, ["wrap-slow-clone", "view"], 4, s, label="asan", variant="asan", base=50,
                   tool_props={"*": "C04,C16"})
         J.append(miri(prop, seed, "slowclone", ["conc", "--families", "wrap-slow-clone,view", "--runs", "2", "--fl", "broadcast"], ms + 4, mt, {"*": "C04"}, base=13))
@@ -139,9 +140,11 @@ def jobs_for(prop, tier, seed):
         # handle counts read back through behaviour at quiescence (spurious Full / Empty that persists)
         J += shard_jobs(prop, seed, ["tight", "--mode", "handle-count"], 2, s, "handle-count", base=90)
     elif prop == "C07":
-        J += conc(prop, seed, ["last-sender"], n - 3, s)
+        J += conc(prop, seed, ["last-sender"], n - 5, s)
         # "recv gives Err / iterators stop" for consumers that are *blocked* when the last sender goes
         J += shard_jobs(prop, seed, ["wake"], 3, s, "wake", base=60)
+        # ... and "a Stream yields None" for stream tasks that are *parked* at that moment (crowds included)
+        J += shard_jobs(prop, seed, ["fut", "--crowd"], 2, s, "fut", base=70)
         J.append(miri(prop, seed, "lastsender", ["conc", "--families", "last-sender", "--runs", "2"], ms, mt, {"*": "C07,C04,C16", "miri-deadlock": "C08"}, no_race=True, base=19))
     elif prop == "C08":
         J += shard_jobs(prop, seed, ["wake"], n, s, "wake")
@@ -192,9 +195,11 @@ def jobs_for(prop, tier, seed):
         J += shard_jobs(prop, seed, ["churn", "--mode", "stress"], 2, s, "lsan", variant="asan", base=50, leaks=True,
                         tool_props={"asan-detected": "C17", "*": "C17,C16"})
         J.append(miri(prop, seed, "leaks", ["seq", "--runs", "2", "--len", "40", "--perm-every", "0"], ms, mt, {"miri-leak": "C17", "*": "C09"}, leaks=True, base=43))
-    # additional Miri slices in the thorough tier only (UB / race / deadlock reports on the families that the
-    # quick tier runs natively)
-    if tier == "thorough":
+    # additional Miri slices, most of them in the thorough tier only (UB / race / deadlock reports on the
+    # families that the quick tier runs natively)
+    # (the stream-list publication / removal orderings of C10 and C11 are only visible to Miri's race
+    # detector, so these two slices run in the quick tier as well)
+    if tier == "thorough" or prop in ("C10", "C11"):
         extra_miri = {
             "C06": (["conc", "--families", "quiesce,remove-stream", "--runs", "2", "--fl", "broadcast"], {"*": "C06,C04,C16"}, False),
             "C10": (["conc", "--families", "add-stream-sole", "--runs", "2"], {"*": "C10,C04,C16"}, False),
@@ -204,7 +209,7 @@ def jobs_for(prop, tier, seed):
         }
         if prop in extra_miri:
             a, tp, nr = extra_miri[prop]
-            J.append(miri(prop, seed, "extra", a, ms // 2, mt, tp, no_race=nr, base=53))
+            J.append(miri(prop, seed, "extra", a, ms // 2 if tier == "thorough" else ms, mt, tp, no_race=nr, base=53))
     if prop == "C18":
         J += shard_jobs(prop, seed, ["solo"], n, s, "solo")
     elif prop == "C19":
